@@ -41,6 +41,7 @@ inductive FsOp where
   | write (f : FName) (chunk : Bytes)   -- `write(fd, chunk)`   (appends)
   | close (f : FName)
   | replace (src dst : FName)           -- `os.replace(src, dst)` (atomic rename)
+  | unlink (f : FName)                  -- `os.remove(f)` / `Path.unlink()` (pruning of old checkpoints)
 deriving DecidableEq, Repr
 
 def applyOp (d : Dir) : FsOp → Dir
@@ -52,6 +53,7 @@ def applyOp (d : Dir) : FsOp → Dir
   | .replace src dst => match d src with
     | some b => (d.set dst (some b)).set src none
     | none => d
+  | .unlink f => d.set f none
 
 def run (d : Dir) (ops : List FsOp) : Dir := ops.foldl applyOp d
 
@@ -67,6 +69,7 @@ inductive Stmt where
   | writeLabel (f : FKind)     -- `f.write(str(iteration))`
   | closeF (f : FKind)         -- end of the `with` block
   | replace (src dst : FKind)  -- `os.replace(src, dst)`
+  | prune                      -- deletion of older `model_<j>.pt` files (which ones depends on the directory: `opsOfX`)
 deriving DecidableEq, Repr
 
 /-- the code as it is now -/
@@ -84,6 +87,7 @@ def saveTablePinned : List Stmt :=
 def Stmt.mentions (k : FKind) : Stmt → Bool
   | .openW f | .writePayload f | .writeLabel f | .closeF f => f == k
   | .replace src dst => src == k || dst == k
+  | .prune => false
 
 /-- structural reading of well-formedness: final names are never opened / written / closed, only replaced from
 their temporary; each temporary is opened, written completely, closed, then renamed — in this order, once; the
@@ -91,7 +95,8 @@ pointer is switched only after the checkpoint file is in place -/
 def wfSaveStruct (t : List Stmt) : Bool :=
   t.all (fun s => match s with
     | .openW f | .writePayload f | .writeLabel f | .closeF f => f != .model && f != .last
-    | .replace src dst => (src == .modelTmp && dst == .model) || (src == .lastTmp && dst == .last))
+    | .replace src dst => (src == .modelTmp && dst == .model) || (src == .lastTmp && dst == .last)
+    | .prune => false)
   && t.filter (Stmt.mentions .modelTmp)
       == [.openW .modelTmp, .writePayload .modelTmp, .closeF .modelTmp, .replace .modelTmp .model]
   && t.filter (Stmt.mentions .lastTmp)
@@ -162,6 +167,7 @@ def instStmt (it : Int) (chunks : List Bytes) : Stmt → List FsOp
   | .writeLabel f => [.write (f.name it) (strInt it)]
   | .closeF f => [.close (f.name it)]
   | .replace s d => [.replace (s.name it) (d.name it)]
+  | .prune => []        -- nothing to delete (no pruning option set / nothing old enough); see `opsOfX`
 
 def opsOf (t : List Stmt) (it : Int) (chunks : List Bytes) : List FsOp := t.flatMap (instStmt it chunks)
 
@@ -169,6 +175,24 @@ def opsOf (t : List Stmt) (it : Int) (chunks : List Bytes) : List FsOp := t.flat
 `torch.save` (their concatenation is the serialised state) -/
 def saveOps (it : Int) (chunks : List Bytes) : List FsOp := opsOf saveTable it chunks
 def saveOpsPinned (it : Int) (chunks : List Bytes) : List FsOp := opsOf saveTablePinned it chunks
+
+/-! ### save routines that also delete older checkpoints (`max_to_keep`-style pruning)
+
+`dels` = the labels whose `model_<j>.pt` the pruning statement removes in this particular save (a function of the
+directory listing in the code; a parameter here). -/
+
+def instStmtX (it : Int) (chunks : List Bytes) (dels : List Int) : Stmt → List FsOp
+  | .prune => dels.map fun j => .unlink (.model j)
+  | s => instStmt it chunks s
+
+def opsOfX (t : List Stmt) (it : Int) (chunks : List Bytes) (dels : List Int) : List FsOp :=
+  t.flatMap (instStmtX it chunks dels)
+
+/-- **well-formed save table with pruning**: a well-formed core (`wfSave`) followed by pruning statements only — i.e.
+nothing is deleted before `last_model.txt` has been switched to the new checkpoint -/
+def wfSaveX (t : List Stmt) : Bool :=
+  let core := t.filter (· != .prune)
+  wfSave core && t == core ++ List.replicate (t.length - core.length) .prune
 
 /-! ## crashes -/
 
